@@ -53,6 +53,17 @@ theorem facts_string_bytes_literals :
     Facts.C20.decodeBytesLits = [0, 0, 0, 4, 0, 1, 2, 8, 3, 16, 4, 0, 4, 4, 4, 0, 1, 0, 0, 1, 1, 1] ∧
     Facts.C20.decodeStringLits = Facts.C20.decodeBytesLits := by decide
 
+/-- The bounds checks of the decoders, as written in the source (conditions of the `if` statements
+that mention `len(`), in order.  These are the checks the panic-explicit model carries
+(`decodeBytesP`, `peekIDP`, `getU64P`, `getBytesP`, `getNP`). -/
+theorem facts_bounds_checks :
+    Facts.C20.guardsDecodeBytes = ["len(b) == 0", "len(b) < 4", "len(b) < (int(strLen) + 4)", "len(b) < (strLen + 1)"] ∧
+    Facts.C20.guardsDecodeString = Facts.C20.guardsDecodeBytes ∧
+    Facts.C20.guardsPeekID = ["len(b.Buf) < Word"] ∧ Facts.C20.guardsPeekN = ["len(b.Buf) < n"] ∧
+    Facts.C20.guardsUint64 = ["len(b.Buf) < size"] ∧ Facts.C20.guardsString = ["len(b.Buf) < n"] ∧
+    Facts.C20.guardsBytes = ["len(b.Buf) < n"] ∧ Facts.C20.guardsInt128 = ["len(b.Buf) < size"] ∧
+    Facts.C20.guardsInt256 = ["len(b.Buf) < size"] := by decide
+
 /-! ## Round trips: `dec (enc v ++ rest) = ok (v, rest)` for every value of every primitive -/
 
 /-- int (`PutInt32`/`PutInt` then `Int32`/`Int`), every int32. -/
